@@ -288,7 +288,16 @@ func init() {
 			}
 			return nil
 		}
-		if !e.feasible(c) {
+		// the verdict for the k-th Assume under a given decision prefix never changes: cache it across the
+		// re-executions of the DFS
+		e.assumeN++
+		key := fmt.Sprintf("%s|%d", e.pathString(), e.assumeN)
+		ok, seen := e.assumeCache[key]
+		if !seen {
+			ok = e.feasible(c)
+			e.assumeCache[key] = ok
+		}
+		if !ok {
 			panic(infeasible{})
 		}
 		e.assume(c)
@@ -339,6 +348,29 @@ func init() {
 		}()
 		e.callFn(fr, a[0], nil, nil)
 		return Bool(false)
+	})
+	R("ErrText", func(e *Engine, fr *frame, a []Value) Value {
+		i, ok := a[0].(Iface)
+		if !ok || i.T == nil {
+			return "<nil>"
+		}
+		txt := ""
+		v := i.V
+		for depth := 0; depth < 8; depth++ {
+			oe, ok := v.(*OpaqueErr)
+			if !ok {
+				txt += i.T.String()
+				break
+			}
+			txt += oe.Msg
+			c, ok := oe.Cause.(Iface)
+			if !ok || c.T == nil {
+				break
+			}
+			txt += ": "
+			v = c.V
+		}
+		return txt
 	})
 	R("PanicMsg", func(e *Engine, fr *frame, a []Value) Value { return showVal(e.lastPanic) })
 	R("Observe", func(e *Engine, fr *frame, a []Value) Value {
